@@ -410,6 +410,42 @@ theorem ImplsOK.adel {n : Nat} {impls : List (Nat × Impl)} (h : ImplsOK n impls
 
 /-! ### the invariant -/
 
+/-- the owner ids of the functor-owned signal objects (`ownG`): below the allocator `n`, pairwise distinct -/
+def OwnIds (n : Nat) (oG : List (Nat × Nat)) : Prop := (∀ p ∈ oG, p.1 < n) ∧ (oG.map (·.1)).Nodup
+
+instance (n : Nat) (oG : List (Nat × Nat)) : Decidable (OwnIds n oG) := by unfold OwnIds; infer_instance
+
+theorem OwnIds.nil (n : Nat) : OwnIds n [] := ⟨fun _ h => (by cases h), List.nodup_nil⟩
+
+theorem OwnIds.mono {n n' : Nat} {oG : List (Nat × Nat)} (h : OwnIds n oG) (hn : n ≤ n') : OwnIds n' oG :=
+  ⟨fun p hp => Nat.lt_of_lt_of_le (h.1 p hp) hn, h.2⟩
+
+theorem OwnIds.filter {n : Nat} {oG : List (Nat × Nat)} (h : OwnIds n oG) (q : Nat × Nat → Bool) :
+    OwnIds n (oG.filter q) :=
+  ⟨fun p hp => h.1 p (List.mem_filter.mp hp).1, (List.filter_sublist.map _).nodup h.2⟩
+
+/-- `ownG`: the new entry gets the allocator's next id -/
+theorem OwnIds.fresh {n : Nat} {oG : List (Nat × Nat)} (h : OwnIds n oG) (g : Nat) : OwnIds (n + 1) ((n, g) :: oG) := by
+  refine ⟨?_, ?_⟩
+  · intro p hp
+    rcases List.mem_cons.mp hp with rfl | hp
+    · exact Nat.lt_succ_self _
+    · exact Nat.lt_succ_of_lt (h.1 p hp)
+  · simp only [List.map_cons, List.nodup_cons]
+    refine ⟨?_, h.2⟩
+    intro hmem
+    obtain ⟨p, hp, e⟩ := List.mem_map.mp hmem
+    have := h.1 p hp
+    omega
+
+/-- an owner id stands for one signal object -/
+theorem OwnIds.unique {n : Nat} {oG : List (Nat × Nat)} (h : OwnIds n oG) {k g g' : Nat}
+    (h1 : (k, g) ∈ oG) (h2 : (k, g') ∈ oG) : g' = g := by
+  have e1 := aget_of_mem_nodup oG k g h.2 h1
+  have e2 := aget_of_mem_nodup oG k g' h.2 h2
+  rw [e1] at e2
+  exact (Option.some.inj e2).symm
+
 /-- **well-formedness of a state** (holds in every reachable state, `runTop_WF`) -/
 structure WF (s : St) : Prop where
   /-- impl keys / cell ids unique and `< next`; trackable references of cells `< next` -/
@@ -420,87 +456,93 @@ structure WF (s : St) : Prop where
   objs : AllV (fun o : Nat => o < s.next) s.T
   /-- the trackable bases of the signal objects are `< next` -/
   trks : AllV (fun h : Handle => h.trk < s.next) s.G
+  /-- the owner ids of the functor-owned signal objects are `< next` and pairwise distinct -/
+  owners : OwnIds s.next s.ownedG
 
 instance (s : St) : Decidable (WF s) :=
   decidable_of_iff (ImplsOK s.next s.impls ∧ AllV (fun v : SlotVar => SlotBelow s.next v.slot) s.S ∧
-      AllV (fun o : Nat => o < s.next) s.T ∧ AllV (fun h : Handle => h.trk < s.next) s.G)
-    ⟨fun ⟨a, b, c, d⟩ => ⟨a, b, c, d⟩, fun ⟨a, b, c, d⟩ => ⟨a, b, c, d⟩⟩
+      AllV (fun o : Nat => o < s.next) s.T ∧ AllV (fun h : Handle => h.trk < s.next) s.G ∧
+      OwnIds s.next s.ownedG)
+    ⟨fun ⟨a, b, c, d, e⟩ => ⟨a, b, c, d, e⟩, fun ⟨a, b, c, d, e⟩ => ⟨a, b, c, d, e⟩⟩
 
 /-- what `WF` says, spelled out -/
 theorem WF_iff (s : St) : WF s ↔
     (UniqueCells s.impls ∧ (∀ p ∈ s.impls, p.1 < s.next) ∧ (∀ c ∈ allCells s.impls, c.id < s.next) ∧
-     TracksBelow s ∧ (∀ p ∈ s.T, p.2 < s.next) ∧ (∀ p ∈ s.G, p.2.trk < s.next)) := by
+     TracksBelow s ∧ (∀ p ∈ s.T, p.2 < s.next) ∧ (∀ p ∈ s.G, p.2.trk < s.next) ∧
+     (∀ p ∈ s.ownedG, p.1 < s.next) ∧ (s.ownedG.map (·.1)).Nodup) := by
   constructor
   · intro h
     exact ⟨h.impls.uniq, h.impls.keys, fun c hc => (h.impls.cells c hc).1,
-      ⟨fun p hp => h.vars p hp, fun c hc => (h.impls.cells c hc).2⟩, h.objs, h.trks⟩
-  · rintro ⟨h1, h2, h3, h4, h5, h6⟩
-    exact ⟨⟨h1, h2, fun c hc => ⟨h3 c hc, h4.2 c hc⟩⟩, fun p hp => h4.1 p hp, h5, h6⟩
+      ⟨fun p hp => h.vars p hp, fun c hc => (h.impls.cells c hc).2⟩, h.objs, h.trks, h.owners.1, h.owners.2⟩
+  · rintro ⟨h1, h2, h3, h4, h5, h6, h7, h8⟩
+    exact ⟨⟨h1, h2, fun c hc => ⟨h3 c hc, h4.2 c hc⟩⟩, fun p hp => h4.1 p hp, h5, h6, ⟨h7, h8⟩⟩
 
 theorem WF.uniqueCells {s : St} (h : WF s) : UniqueCells s.impls := h.impls.uniq
 theorem WF.tracksBelow {s : St} (h : WF s) : TracksBelow s := ((WF_iff s).mp h).2.2.2.1
 
 /-- the initial state is well-formed -/
 theorem WF_init : WF ({} : St) :=
-  ⟨ImplsOK.nil _, AllV.nil _, AllV.nil _, AllV.nil _⟩
+  ⟨ImplsOK.nil _, AllV.nil _, AllV.nil _, AllV.nil _, OwnIds.nil _⟩
 
 example : WF exStT := by decide
 example : WF exStK := by decide
 
 /-! ### frame rules -/
 
-/-- only `impls`, `S`, `T`, `G`, `next` matter -/
+/-- only `impls`, `S`, `T`, `G`, `ownedG`, `next` matter -/
 theorem WF.frame {s : St} (h : WF s) (s' : St) (hn : s'.next = s.next) (hi : s'.impls = s.impls) (hS : s'.S = s.S)
-    (hT : s'.T = s.T) (hG : s'.G = s.G) : WF s' := by
-  obtain ⟨a, b, c, d⟩ := h
+    (hT : s'.T = s.T) (hG : s'.G = s.G) (hO : s'.ownedG = s.ownedG) : WF s' := by
+  obtain ⟨a, b, c, d, e⟩ := h
   constructor
   · rw [hn, hi]; exact a
   · rw [hn, hS]; exact b
   · rw [hn, hT]; exact c
   · rw [hn, hG]; exact d
+  · rw [hn, hO]; exact e
 
 /-- the allocator moves on -/
 theorem WF.bump {s : St} (h : WF s) (s' : St) (hn : s.next ≤ s'.next) (hi : s'.impls = s.impls) (hS : s'.S = s.S)
-    (hT : s'.T = s.T) (hG : s'.G = s.G) : WF s' := by
-  obtain ⟨a, b, c, d⟩ := h
+    (hT : s'.T = s.T) (hG : s'.G = s.G) (hO : s'.ownedG = s.ownedG) : WF s' := by
+  obtain ⟨a, b, c, d, e⟩ := h
   constructor
   · rw [hi]; exact a.mono hn
   · rw [hS]; exact b.imp (fun v hv => hv.mono hn)
   · rw [hT]; exact c.imp (fun v hv => Nat.lt_of_lt_of_le hv hn)
   · rw [hG]; exact d.imp (fun v hv => Nat.lt_of_lt_of_le hv hn)
+  · rw [hO]; exact e.mono hn
 
-theorem WF.fresh {s : St} (h : WF s) : WF s.fresh.2 := h.bump _ (Nat.le_succ _) rfl rfl rfl rfl
+theorem WF.fresh {s : St} (h : WF s) : WF s.fresh.2 := h.bump _ (Nat.le_succ _) rfl rfl rfl rfl rfl
 
 theorem WF.fail {s : St} (h : WF s) (m : String) : WF (s.fail m) := by
   unfold St.fail; split
-  · exact h.frame _ rfl rfl rfl rfl rfl
+  · exact h.frame _ rfl rfl rfl rfl rfl rfl
   · exact h
 
-theorem WF.log {s : St} (h : WF s) (e : Event) : WF (s.log e) := h.frame _ rfl rfl rfl rfl rfl
+theorem WF.log {s : St} (h : WF s) (e : Event) : WF (s.log e) := h.frame _ rfl rfl rfl rfl rfl rfl
 
-theorem WF.nullConns {s : St} (h : WF s) (cid : Nat) : WF (nullConns s cid) := h.frame _ rfl rfl rfl rfl rfl
+theorem WF.nullConns {s : St} (h : WF s) (cid : Nat) : WF (nullConns s cid) := h.frame _ rfl rfl rfl rfl rfl rfl
 
 theorem WF.nullConnsList {s : St} (h : WF s) (cids : List Nat) : WF (nullConnsList s cids) :=
   h.frame _ (nullConnsList_next _ _) (nullConnsList_impls _ _) (nullConnsList_S _ _) (nullConnsList_T _ _)
-    (nullConnsList_G _ _)
+    (nullConnsList_G _ _) (nullConnsList_ownedG _ _)
 
 /-- the impl table is replaced by a well-formed one -/
 theorem WF.withImpls {s : St} (h : WF s) (impls : List (Nat × Impl)) (hi : ImplsOK s.next impls) :
     WF { s with impls := impls } :=
-  ⟨hi, h.vars, h.objs, h.trks⟩
+  ⟨hi, h.vars, h.objs, h.trks, h.owners⟩
 
 theorem WF.setImpl {s : St} (h : WF s) (i : Nat) (im' : Impl) (hi : ImplsOK s.next (aset s.impls i im')) :
     WF (setImpl s i im') :=
-  ⟨hi, h.vars, h.objs, h.trks⟩
+  ⟨hi, h.vars, h.objs, h.trks, h.owners⟩
 
 /-- the table of slot variables is replaced by a well-formed one -/
 theorem WF.withS {s : St} (h : WF s) (S : List (Nat × SlotVar)) (hS : AllV (fun v : SlotVar => SlotBelow s.next v.slot) S) :
     WF { s with S := S } :=
-  ⟨h.impls, hS, h.objs, h.trks⟩
+  ⟨h.impls, hS, h.objs, h.trks, h.owners⟩
 
-theorem WF.withC {s : St} (h : WF s) (C : List (Nat × Option Nat)) : WF { s with C := C } := h.frame _ rfl rfl rfl rfl rfl
-theorem WF.withK {s : St} (h : WF s) (K : List (Nat × Option Nat)) : WF { s with K := K } := h.frame _ rfl rfl rfl rfl rfl
-theorem WF.setConn {s : St} (h : WF s) (k : Nat) (p : Option Nat) : WF (setConn s k p) := h.frame _ rfl rfl rfl rfl rfl
+theorem WF.withC {s : St} (h : WF s) (C : List (Nat × Option Nat)) : WF { s with C := C } := h.frame _ rfl rfl rfl rfl rfl rfl
+theorem WF.withK {s : St} (h : WF s) (K : List (Nat × Option Nat)) : WF { s with K := K } := h.frame _ rfl rfl rfl rfl rfl rfl
+theorem WF.setConn {s : St} (h : WF s) (k : Nat) (p : Option Nat) : WF (setConn s k p) := h.frame _ rfl rfl rfl rfl rfl rfl
 
 /-! ### cells and lists -/
 
@@ -603,9 +645,9 @@ theorem WF.ensureImpl {s s1 : St} (h : WF s) {g i : Nat} (he : ensureImpl s g = 
     · simp at he; obtain ⟨rfl, _⟩ := he; exact h
     · simp only [St.fresh, Option.some.injEq, Prod.mk.injEq] at he
       obtain ⟨rfl, _⟩ := he
-      have h1 : WF { s with next := s.next + 1 } := h.bump _ (Nat.le_succ _) rfl rfl rfl rfl
+      have h1 : WF { s with next := s.next + 1 } := h.bump _ (Nat.le_succ _) rfl rfl rfl rfl rfl
       exact ⟨h1.impls.aset_empty s.next (Nat.lt_succ_self _), h1.vars, h1.objs,
-        h1.trks.aset g _ (h1.trks.of_aget (v := hd) hg)⟩
+        h1.trks.aset g _ (h1.trks.of_aget (v := hd) hg), h1.owners⟩
 
 theorem ensureImpl_next_le {s s1 : St} {g i : Nat} (he : ensureImpl s g = some (s1, i)) : s.next ≤ s1.next := by
   unfold Model.ensureImpl at he
@@ -629,12 +671,12 @@ theorem WF.insertCell {s : St} (h : WF s) (i : Nat) (first : Bool) (sl : SlotB) 
     WF (insertCell s i first sl).1 := by
   unfold Model.insertCell
   simp only [St.fresh]
-  have h1 : WF { s with next := s.next + 1 } := h.bump _ (Nat.le_succ _) rfl rfl rfl rfl
+  have h1 : WF { s with next := s.next + 1 } := h.bump _ (Nat.le_succ _) rfl rfl rfl rfl rfl
   split
   · exact h1.fail _
   · rename_i im hi
     have hi' : aget s.impls i = some im := hi
-    refine ⟨?_, h1.vars, h1.objs, h1.trks⟩
+    refine ⟨?_, h1.vars, h1.objs, h1.trks, h1.owners⟩
     have hsl' : SlotBelow (s.next + 1) (match sl.rep with
         | none => { sl with rep := some { call := false, fn := none } }
         | some _ => sl) := by
@@ -679,19 +721,43 @@ theorem WF.connBlock {s : St} (h : WF s) (p : Option Nat) (b : Bool) : WF (connB
     · exact h
     · exact h.updCell _ _ _ (fun _ => rfl) (fun c hc => hc.blocked b)
 
+/-- the signal object named `g` dies (`delG` when it does not refuse; `collect` for a functor-owned one) -/
+theorem WF.dropHandle {s : St} (h : WF s) (g : Nat) : WF (dropHandle s g) := by
+  unfold Model.dropHandle
+  split
+  · exact h
+  · rename_i hd _
+    have h1 : WF (if hd.fl.isTrackable then Model.invalidateTrackable s hd.trk else s) := by
+      split
+      · exact h.invalidateTrackable _
+      · exact h
+    have h2 : WF { (if hd.fl.isTrackable then Model.invalidateTrackable s hd.trk else s) with
+        G := adel (if hd.fl.isTrackable then Model.invalidateTrackable s hd.trk else s).G g } :=
+      ⟨h1.impls, h1.vars, h1.objs, h1.trks.adel g, h1.owners⟩
+    simp only
+    split
+    · exact h2.gcImpl _
+    · exact h2
+
 theorem WF.collectStep {s s' : St} (h : WF s) (hc : collectStep s = some s') : WF s' := by
   unfold Model.collectStep at hc
   split at hc
   · simp only [Option.some.injEq] at hc; subst hc
     apply WF.invalidateTrackable
-    exact h.frame _ rfl rfl rfl rfl rfl
+    exact h.frame _ rfl rfl rfl rfl rfl rfl
   · split at hc
     · simp only [Option.some.injEq] at hc; subst hc
-      have h1 : WF { s with ownedK := s.ownedK.filter (fun q => q.1 ≠ ‹Nat›) } := h.frame _ rfl rfl rfl rfl rfl
+      have h1 : WF { s with ownedK := s.ownedK.filter (fun q => q.1 ≠ ‹Nat›) } := h.frame _ rfl rfl rfl rfl rfl rfl
       split
       · exact h1.disconnectCell _
       · exact h1
-    · cases hc
+    · split at hc
+      · rename_i k g _
+        simp only [Option.some.injEq] at hc; subst hc
+        have h1 : WF { s with ownedG := s.ownedG.filter (fun q => q.1 ≠ k) } :=
+          ⟨h.impls, h.vars, h.objs, h.trks, h.owners.filter _⟩
+        exact h1.dropHandle g
+      · cases hc
 
 theorem WF.collectN {s : St} (h : WF s) (n : Nat) : WF (collectN n s) := by
   induction n generalizing s with
